@@ -54,6 +54,29 @@ var vocabulary = map[string]bool{
 	load.HelperPkg + ".GetDeleteSlots":        true,
 }
 
+// BigInlineLimit bounds the size of a new single-caller function that is expanded back into its caller.
+const BigInlineLimit = 400
+
+// callSites counts the static call expressions of fn in the repo.
+func (e *Engine) callSites(fn *types.Func) int {
+	in := e.inl()
+	if in.nCalls == nil {
+		in.nCalls = map[*types.Func]int{}
+		for _, fi := range e.Prog.Funcs() {
+			info := fi.Pkg.TypesInfo
+			ast.Inspect(fi.Decl.Body, func(n ast.Node) bool {
+				if call, ok := n.(*ast.CallExpr); ok {
+					if f := StaticCallee(info, call); f != nil {
+						in.nCalls[f.Origin()]++
+					}
+				}
+				return true
+			})
+		}
+	}
+	return in.nCalls[fn.Origin()]
+}
+
 // InlSite is one expanded call.
 type InlSite struct {
 	Call    *ast.CallExpr
@@ -76,6 +99,7 @@ type inliner struct {
 	callees   map[*types.Func][]*types.Func // static repo call graph
 	recursive map[*types.Func]bool
 	built     bool
+	nCalls    map[*types.Func]int
 }
 
 func (e *Engine) inl() *inliner {
@@ -199,8 +223,13 @@ func (e *Engine) inlineInfo(fn *types.Func) *inlDecision {
 	}
 	d.size = size
 	if size > InlineLimit {
-		d.why = fmt.Sprintf("expanded size %d > %d", size, InlineLimit)
-		return d
+		// a function that did not exist at the pinned commit and has a single call site was cut out of its
+		// caller ("extract a phase into a helper"): it is expanded back whatever its size
+		single := e.IsPinned != nil && !e.IsPinned(fn) && size <= BigInlineLimit && e.callSites(fn) == 1
+		if !single {
+			d.why = fmt.Sprintf("expanded size %d > %d", size, InlineLimit)
+			return d
+		}
 	}
 	d.ok = true
 	return d
